@@ -81,7 +81,9 @@ def setupJoin (t : TableInfo) (j : JoinInfo) (load : Outcome JoinIndex) : Outcom
   | some _ => load
 
 def loadJoinFile (j : JoinInfo) (lines : List FileLine) : Outcome JoinIndex :=
-  if lines.any (fun fl => !fl.readable) then
+  -- the joined column is looked up before the file is opened
+  if (indexOf? j.joined.columns j.joinedColumn).isNone then .error .columnNotFound
+  else if lines.any (fun fl => !fl.readable) then
     -- rows before the unreadable line were indexed, but the error aborts the run
     .error .failReadFile
   else loadJoin j (lines.map (·.line))
